@@ -6,7 +6,37 @@ use zksync_consensus_roles::validator;
 
 fn main() {
     quiet_panics();
+    let pool = vh::keys::validator_pool(16);
     for c in read_cases() {
+        if let Some(ws) = c.get("weights") {
+            // the thresholds as methods of a real Schedule (committee given by weights + leader flags)
+            let vals: Vec<_> = ws
+                .as_array()
+                .unwrap()
+                .iter()
+                .enumerate()
+                .map(|(i, w)| validator::ValidatorInfo {
+                    key: pool[i].public(),
+                    weight: u64_of(w),
+                    leader: c["leaders"][i].as_u64().unwrap_or(1) != 0,
+                })
+                .collect();
+            let show = |r: Result<u64, String>| match r {
+                Ok(v) => json!(v.to_string()),
+                Err(m) => json!({ "panic": m }),
+            };
+            match validator::Schedule::new(vals, validator::LeaderSelection::default()) {
+                Ok(sch) => {
+                    let t = catch(|| sch.total_weight());
+                    let f = catch(|| sch.max_faulty_weight());
+                    let q = catch(|| sch.quorum_threshold());
+                    let s = catch(|| sch.subquorum_threshold());
+                    write_line(&json!({"sched": true, "total": show(t), "f": show(f), "q": show(q), "s": show(s)}));
+                }
+                Err(e) => write_line(&json!({"sched": false, "err": format!("{e:#}")})),
+            }
+            continue;
+        }
         let n = u64_of(&c["n"]);
         let f = catch(|| validator::max_faulty_weight(n));
         let q = catch(|| validator::quorum_threshold(n));
